@@ -489,6 +489,35 @@ Proof.
     subst j. congruence.
 Qed.
 
+(* pure corollaries used by the matrix-level proofs *)
+Lemma map_down_v_pos i x : nth_opt V i = Some x -> map_down_v V i = Some (less_v V x + rank_v V i x, x).
+Proof.
+  intros Hx. rewrite (down_spec i x Hx). pose proof (nth_opt_Some_lt _ _ _ Hx) as Hlt.
+  rewrite downk_spec by (unfold lenN; lia). unfold map_down_with_v.
+  destruct core_width_range as (_ & Hww & _). pose proof core_values_small as Hs. rewrite Forall_forall in Hs.
+  rewrite <- Hww, N.mod_small by (apply Hs; eapply nth_opt_in; exact Hx). reflexivity.
+Qed.
+
+Lemma map_up_v_select r v : v < 2 ^ width -> map_up_v V (less_v V v + r) v = select_v V r v.
+Proof.
+  intros Hv. destruct core_width_range as (_ & Hww & _).
+  assert (Hvm : v mod 2 ^ width = v) by (apply N.mod_small; exact Hv).
+  rewrite <- Hvm at 2. rewrite <- up_spec.
+  destruct (upk snd w L0 v (less_v V v + r)) as [p|] eqn:Eu.
+  - apply upk_sound in Eu; [|destruct core_width_range; lia]. destruct Eu as (a & Ha & Hm & Hd).
+    apply L0_nth_inv in Ha. destruct Ha as [Ea Hp]. destruct a as [q x]. cbn [snd] in *. injection Ea as ->.
+    pose proof core_values_small as Hs. rewrite Forall_forall in Hs.
+    rewrite Hww, N.mod_small in Hm by (rewrite <- Hww; apply Hs; eapply nth_opt_in; exact Hp). rewrite Hvm in Hm. subst x.
+    pose proof (nth_opt_Some_lt _ _ _ Hp) as Hlt.
+    rewrite downk_spec in Hd by (unfold lenN; lia). rewrite Hvm in Hd. unfold map_down_with_v in Hd.
+    assert (rank_v V p v = r) by lia. subst r. symmetry. apply select_v_complete. exact Hp.
+  - destruct (select_v V r v) as [p|] eqn:Es; [|reflexivity]. exfalso.
+    apply select_v_sound in Es. destruct Es as [Hp Hr]. pose proof (nth_opt_Some_lt _ _ _ Hp) as Hlt.
+    assert (Hm : snd (p, v) mod 2 ^ N.of_nat w = v mod 2 ^ N.of_nat w) by reflexivity.
+    pose proof (upk_complete snd w L0 v p (p, v) (L0_nth p v Hp) Hm) as Hc.
+    rewrite downk_spec in Hc by (unfold lenN; lia). rewrite Hvm in Hc. unfold map_down_with_v in Hc. rewrite Hr in Hc. congruence.
+Qed.
+
 (* ---- the core theorems *)
 
 Theorem core_len_width : wc_len core = Ok (lenS V) /\ wc_width core = width_v V.
@@ -538,3 +567,259 @@ Proof.
 Qed.
 
 End Core.
+
+(* ---------------------------------------------------------------- occurrence lists *)
+
+Lemma skipN_0 {A} (l : list A) : skipN l 0 = l.
+Proof. destruct l; reflexivity. Qed.
+
+Lemma skipN_index_from {A} (l : list A) s r :
+  skipN (index_from l s) r =
+  match nth_opt l r with Some p => (s + r, p) :: skipN (index_from l s) (r + 1) | None => [] end.
+Proof.
+  revert s r. induction l as [|x t IH]; intros s r; [reflexivity|]. cbn [index_from skipN nth_opt].
+  destruct (N.eqb_spec r 0) as [->|Hr].
+  - replace (0 + 1 =? 0) with false by lia. replace (0 + 1 - 1) with 0 by lia. rewrite skipN_0. f_equal. f_equal. lia.
+  - rewrite IH. replace (r + 1 =? 0) with false by lia. replace (r + 1 - 1) with (r - 1 + 1) by lia.
+    destruct (nth_opt t (r - 1)); [f_equal; f_equal; lia|reflexivity].
+Qed.
+
+Lemma ones_from_bounds B pos : StronglySorted N.lt (ones_from B pos) /\ Forall (fun p => pos <= p) (ones_from B pos).
+Proof.
+  revert pos. induction B as [|b t IH]; intros pos; cbn [ones_from]; [split; constructor|].
+  destruct (IH (pos + 1)) as [H1 H2]. rewrite Forall_forall in H2. destruct b.
+  - split; constructor; try exact H1; try lia; rewrite Forall_forall; intros p Hp; specialize (H2 p Hp); lia.
+  - split; [exact H1|]. rewrite Forall_forall. intros p Hp. specialize (H2 p Hp). lia.
+Qed.
+
+Lemma ones_from_cnt B pos k : cnt (fun p => p <? pos + k) (ones_from B pos) = rank1 B k.
+Proof.
+  revert pos k. induction B as [|b t IH]; intros pos k; cbn [ones_from rank1]; [reflexivity|].
+  destruct (N.eqb_spec k 0) as [->|Hk].
+  - apply cnt_false. intros p Hp. pose proof (ones_from_bounds (b :: t) pos) as [_ Hb]. rewrite Forall_forall in Hb.
+    specialize (Hb p Hp). lia.
+  - specialize (IH (pos + 1) (k - 1)). replace (pos + 1 + (k - 1)) with (pos + k) in IH by lia.
+    destruct b; cbn [b2n]; [rewrite cnt_cons, IH; replace (pos <? pos + k) with true by lia; reflexivity|rewrite IH; lia].
+Qed.
+
+Lemma occ_sorted V v : StronglySorted N.lt (occ V v).
+Proof. unfold occ. rewrite occ_from_ones. apply ones_from_bounds. Qed.
+
+Lemma occ_cnt V v k : cnt (fun p => p <? k) (occ V v) = rank_v V k v.
+Proof. unfold occ. rewrite occ_from_ones, rank_v_rank1. apply (ones_from_cnt (ind v V) 0 k). Qed.
+
+Lemma nth_opt_occ V v r : nth_opt (occ V v) r = select_v V r v.
+Proof. reflexivity. Qed.
+
+Lemma drop_below_sorted O s i :
+  StronglySorted N.lt O -> drop_below (index_from O s) i = skipN (index_from O s) (cnt (fun p => p <? i) O).
+Proof.
+  revert s. induction O as [|p t IH]; intros s HS; [reflexivity|]. cbn [index_from drop_below]. rewrite cnt_cons.
+  apply StronglySorted_inv in HS. destruct HS as [Ht Hp]. destruct (N.ltb_spec p i) as [Hlt|Hge].
+  - rewrite IH by exact Ht. cbn [skipN]. replace (1 + cnt (fun p0 => p0 <? i) t =? 0) with false by lia.
+    f_equal. lia.
+  - rewrite cnt_false; [cbn [skipN]; reflexivity|]. intros q Hq. rewrite Forall_forall in Hp. specialize (Hp q Hq). lia.
+Qed.
+
+Lemma pred_suffix_sorted O s i best :
+  StronglySorted N.lt O ->
+  pred_suffix_aux (index_from O s) i best =
+  if cnt (fun p => p <=? i) O =? 0 then best else skipN (index_from O s) (cnt (fun p => p <=? i) O - 1).
+Proof.
+  revert s best. induction O as [|p t IH]; intros s best HS; [reflexivity|]. cbn [index_from pred_suffix_aux]. rewrite cnt_cons.
+  apply StronglySorted_inv in HS. destruct HS as [Ht Hp]. destruct (N.leb_spec p i) as [Hle|Hgt].
+  - rewrite IH by exact Ht. replace (1 + cnt (fun p0 => p0 <=? i) t =? 0) with false by lia.
+    destruct (N.eqb_spec (cnt (fun p0 => p0 <=? i) t) 0) as [E|E].
+    + rewrite E. replace (1 + 0 - 1) with 0 by lia. cbn [skipN]. reflexivity.
+    + cbn [skipN]. replace (1 + cnt (fun p0 => p0 <=? i) t - 1 =? 0) with false by lia. f_equal. lia.
+  - rewrite cnt_false; [reflexivity|]. intros q Hq. rewrite Forall_forall in Hp. specialize (Hp q Hq). lia.
+Qed.
+
+Lemma skipn_nth {A} (l : list A) k x : nth_error l k = Some x -> skipn k l = x :: skipn (S k) l.
+Proof.
+  revert k. induction l as [|y t IH]; intros k H; [destruct k; discriminate|].
+  destruct k as [|k]; [cbn in H; injection H as ->; reflexivity|]. cbn [nth_error] in H. cbn [skipn]. apply IH. exact H.
+Qed.
+
+(* ---------------------------------------------------------------- WaveletMatrix *)
+
+(* the IntVector `first` returns the offsets that were pushed into it *)
+Definition first_ok (first : intvec) (F : list N) : Prop :=
+  ilen first = lenN F /\ forall v x, nthN F v = Some x -> iv_get first v = Ok x.
+
+Section WMat.
+Variables (sp : selpath) (m : mode) (V : list N) (levels : list bitvec) (first : intvec) (F : list N).
+Hypothesis HV : Forall (fun x => x < 2 ^ 64) V.
+Hypothesis Hn : lenN V < 2 ^ 64.
+Hypothesis Hmax : list_max V + 1 < 2 ^ 64.
+Hypothesis Hlv : Forall2 (bv_queries_ok sp m) levels (wm_columns V).
+Hypothesis HF : first_offsets m V (lenN V) (list_max V) = Ok F.
+Hypothesis Hfirst : first_ok first F.
+
+Let wm := mkwm (lenN V) (mkcore levels) first.
+Let core := mkcore levels.
+
+Lemma F_spec : lenN F = list_max V + 1 /\
+  forall v, v <= list_max V -> nthN F v = Some (if contains_v V v then less_v V v else lenN V).
+Proof.
+  destruct (first_offsets_ok m V HV Hmax) as (F' & H1 & H2 & H3). rewrite HF in H1. injection H1 as ->. tauto.
+Qed.
+
+Lemma start_ok v : v <= list_max V -> wm_start wm v = Ok (if contains_v V v then less_v V v else lenN V).
+Proof. intros Hv. unfold wm_start, wm. cbn [wm_first]. apply Hfirst. apply F_spec. exact Hv. Qed.
+
+Lemma absent_above v : list_max V < v -> contains_v V v = false.
+Proof.
+  intros Hv. destruct (contains_v V v) eqn:E; [|reflexivity]. apply contains_v_in in E. apply list_max_ge in E. lia.
+Qed.
+
+Lemma contains_ok v : wm_contains wm v = Ok (contains_v V v).
+Proof.
+  unfold wm_contains. change (ilen (wm_first wm)) with (ilen first). destruct Hfirst as [-> _]. destruct F_spec as [-> _].
+  destruct (N.ltb_spec v (list_max V + 1)) as [Hv|Hv].
+  - rewrite start_ok by lia. cbn [bind]. f_equal. change (wm_len wm) with (lenN V).
+    destruct (contains_v V v) eqn:E.
+    + apply contains_v_in in E. apply less_v_lt in E. unfold lenS, lenN in *. lia.
+    + lia.
+  - rewrite absent_above by lia. reflexivity.
+Qed.
+
+Lemma value_small v : v <= list_max V -> v < 2 ^ bit_len (list_max V).
+Proof.
+  intros Hv. assert (Hm : list_max V < 2 ^ 64) by lia. pose proof (bit_len_range _ Hm) as [_ H]. lia.
+Qed.
+
+Lemma present_le v : contains_v V v = true -> v <= list_max V.
+Proof. intros H. apply contains_v_in in H. apply list_max_ge. exact H. Qed.
+
+Theorem wm_rank_ok i v : i < 2 ^ 64 -> wm_rank m wm i v = Ok (rank_v V i v).
+Proof.
+  intros Hi. unfold wm_rank. rewrite contains_ok. cbn [bind]. destruct (contains_v V v) eqn:Ec; cbn [negb].
+  - change (wm_data wm) with core. unfold core. rewrite (core_map_down_with sp m V levels HV Hn Hlv i v Hi). cbn [bind].
+    rewrite start_ok by (apply present_le; exact Ec). rewrite Ec. cbn [bind].
+    rewrite (width_v_bit_len V HV), N.mod_small by (apply value_small, present_le; exact Ec).
+    unfold map_down_with_v, usub. replace (less_v V v <=? less_v V v + rank_v V i v) with true by lia. f_equal. lia.
+  - rewrite rank_v_absent by exact Ec. reflexivity.
+Qed.
+
+Theorem wm_inverse_select_ok i : i < 2 ^ 64 -> wm_inverse_select m wm i = Ok (inverse_select_v V i).
+Proof.
+  intros Hi. unfold wm_inverse_select. change (wm_data wm) with core. unfold core.
+  rewrite (core_map_down sp m V levels HV Hn Hlv i Hi). cbn [bind]. unfold inverse_select_v.
+  destruct (nth_opt V i) as [x|] eqn:Ex.
+  - rewrite (map_down_v_pos V HV Hn i x Ex).
+    assert (Hc : contains_v V x = true) by (apply contains_v_in; eapply nth_opt_in; exact Ex).
+    rewrite start_ok by (apply present_le; exact Hc). rewrite Hc. cbn [bind]. unfold usub.
+    replace (less_v V x <=? less_v V x + rank_v V i x) with true by lia. cbn [bind]. f_equal. f_equal. f_equal. lia.
+  - unfold map_down_v. rewrite Ex. reflexivity.
+Qed.
+
+Theorem wm_get_ok i : i < 2 ^ 64 ->
+  wm_get m wm i = match get_v V i with Some x => Ok x | None => Panic PUnwrap end.
+Proof.
+  intros Hi. unfold wm_get. rewrite (wm_inverse_select_ok i Hi). cbn [bind]. unfold inverse_select_v, get_v.
+  destruct (nth_opt V i); reflexivity.
+Qed.
+
+Theorem wm_select_ok r v : r < 2 ^ 64 -> wm_select sp m wm r v = Ok (select_v V r v).
+Proof.
+  intros Hr. unfold wm_select. rewrite contains_ok. cbn [bind]. destruct (contains_v V v) eqn:Ec; cbn [negb].
+  - rewrite start_ok by (apply present_le; exact Ec). rewrite Ec. cbn [bind].
+    assert (Hs : less_v V v < lenS V) by (apply less_v_lt, contains_v_in; exact Ec).
+    destruct (N.ltb_spec (less_v V v + r) (2 ^ 64)) as [Hlt|Hge].
+    + change (wm_data wm) with core. unfold core. rewrite (core_map_up_with sp m V levels HV Hn Hlv _ v Hlt). f_equal.
+      rewrite (width_v_bit_len V HV), N.mod_small by (apply value_small, present_le; exact Ec).
+      apply (map_up_v_select V HV Hn). apply value_small, present_le. exact Ec.
+    + f_equal. destruct (select_v V r v) as [p|] eqn:Es; [|reflexivity]. exfalso.
+      apply select_v_sound in Es. destruct Es as [_ Es]. pose proof (less_rank_le V p v). unfold lenS, lenN in *. lia.
+  - rewrite select_v_absent by exact Ec. reflexivity.
+Qed.
+
+Lemma select_iter_unfold r v :
+  select_iter_v V r v = match select_v V r v with Some p => (r, p) :: select_iter_v V (r + 1) v | None => [] end.
+Proof.
+  unfold select_iter_v, value_iter_v. rewrite skipN_index_from, nth_opt_occ.
+  destruct (select_v V r v); [f_equal; f_equal; lia|reflexivity].
+Qed.
+
+Lemma select_v_beyond r v : lenS V <= r -> select_v V r v = None.
+Proof.
+  intros Hr. destruct (select_v V r v) as [p|] eqn:Es; [|reflexivity]. exfalso.
+  apply select_v_sound in Es. destruct Es as [Hp Es]. apply nth_opt_Some_lt in Hp. pose proof (rank_v_le V p v). unfold lenS in Hr. lia.
+Qed.
+
+Lemma vi_collect_ok fuel r v :
+  r < 2 ^ 64 -> lenN V - r < N.of_nat fuel ->
+  vi_collect sp m wm fuel (mkvi v r) = Ok (select_iter_v V r v).
+Proof.
+  revert r. induction fuel as [|k IH]; intros r Hr Hf; [lia|]. cbn [vi_collect]. unfold vi_next. cbn [vi_rank vi_value].
+  change (wm_len wm) with (lenN V). rewrite select_iter_unfold.
+  destruct (N.leb_spec (lenN V) r) as [Hge|Hlt].
+  - cbn [bind]. rewrite select_v_beyond by exact Hge. reflexivity.
+  - rewrite (wm_select_ok r v Hr). cbn [bind]. destruct (select_v V r v) as [p|]; cbn [bind]; [|reflexivity].
+    rewrite IH by lia. reflexivity.
+Qed.
+
+(* value_iter / select_iter: everything the iterator yields *)
+Theorem wm_iter_items_ok r v : r < 2 ^ 64 -> vi_items sp m wm (wm_select_iter r v) = Ok (select_iter_v V r v).
+Proof.
+  intros Hr. unfold vi_items, wm_select_iter. apply vi_collect_ok; [exact Hr|]. unfold vi_fuel. change (wm_len wm) with (lenN V). lia.
+Qed.
+
+Theorem wm_value_iter_ok v : vi_items sp m wm (wm_value_iter v) = Ok (value_iter_v V v).
+Proof.
+  change (wm_value_iter v) with (wm_select_iter 0 v). rewrite wm_iter_items_ok by lia.
+  unfold select_iter_v. rewrite skipN_0. reflexivity.
+Qed.
+
+Lemma rank_v_sat i v : i < 2 ^ 64 -> rank_v V (sat_add1 i) v = rank_v V (i + 1) v.
+Proof.
+  intros Hi. unfold sat_add1. destruct (N.ltb_spec (i + 1) (2 ^ 64)); [reflexivity|].
+  rewrite <- (rank_v_min V (2 ^ 64 - 1)), <- (rank_v_min V (i + 1)). unfold lenS, lenN in *. rewrite !N.min_r by lia. reflexivity.
+Qed.
+
+Theorem wm_predecessor_ok i v : i < 2 ^ 64 ->
+  (let* it := wm_predecessor m wm i v in vi_items sp m wm it) = Ok (pred_v V i v).
+Proof.
+  intros Hi. unfold wm_predecessor. rewrite wm_rank_ok by (unfold sat_add1; destruct (i + 1 <? 2 ^ 64) eqn:E; lia).
+  cbn [bind]. rewrite rank_v_sat by exact Hi. change (wm_len wm) with (lenN V).
+  unfold pred_v, value_iter_v. rewrite (pred_suffix_sorted _ 0 i [] (occ_sorted V v)).
+  rewrite (cnt_ext (fun p => p <=? i) (fun p => p <? i + 1)) by (intros p; lia). rewrite occ_cnt.
+  pose proof (rank_v_le V (i + 1) v) as Hle.
+  assert (Hrn : rank_v V (i + 1) v <= lenN V).
+  { rewrite <- rank_v_min. etransitivity; [apply rank_v_le|]. unfold lenS, lenN. lia. }
+  destruct (N.ltb_spec 0 (rank_v V (i + 1) v)) as [Hpos|Hz].
+  - replace (rank_v V (i + 1) v =? 0) with false by lia. rewrite wm_iter_items_ok by lia. reflexivity.
+  - replace (rank_v V (i + 1) v =? 0) with true by lia. rewrite wm_iter_items_ok by exact Hn. f_equal.
+    rewrite select_iter_unfold, select_v_beyond by (unfold lenS, lenN; lia). reflexivity.
+Qed.
+
+Theorem wm_successor_ok i v : i < 2 ^ 64 ->
+  (let* it := wm_successor m wm i v in vi_items sp m wm it) = Ok (succ_v V i v).
+Proof.
+  intros Hi. unfold wm_successor. rewrite wm_rank_ok by exact Hi. cbn [bind].
+  pose proof (rank_v_le V i v). rewrite wm_iter_items_ok by lia. f_equal.
+  unfold succ_v, select_iter_v, value_iter_v. rewrite (drop_below_sorted _ 0 i (occ_sorted V v)), occ_cnt. reflexivity.
+Qed.
+
+Lemma iter_collect_ok fuel i :
+  lenN V - i < N.of_nat fuel -> i <= lenN V -> wm_iter_collect m wm fuel i = Ok (skipn (N.to_nat i) V).
+Proof.
+  revert i. induction fuel as [|k IH]; intros i Hf Hi; [lia|]. cbn [wm_iter_collect]. change (wm_len wm) with (lenN V).
+  destruct (N.leb_spec (lenN V) i) as [Hge|Hlt].
+  - rewrite skipn_all2 by (unfold lenN in *; lia). reflexivity.
+  - rewrite wm_get_ok by lia. unfold get_v. destruct (nth_opt_lt_Some V i Hlt) as [x Hx]. rewrite Hx. cbn [bind].
+    rewrite IH by lia. cbn [bind]. f_equal. rewrite nth_opt_nth_error in Hx. rewrite (skipn_nth _ _ _ Hx).
+    replace (N.to_nat (i + 1)) with (S (N.to_nat i)) by lia. reflexivity.
+Qed.
+
+Theorem wm_into_iter_ok : wm_into_iter m wm = Ok V.
+Proof. unfold wm_into_iter. rewrite iter_collect_ok; [reflexivity|change (wm_len wm) with (lenN V); lia|lia]. Qed.
+
+Theorem wm_len_width_ok : wm_len wm = lenS V /\ wm_width wm = width_v V /\ wm_width wm = bit_len (list_max V).
+Proof.
+  split; [reflexivity|]. pose proof (core_len_width sp m V levels HV Hn Hlv) as [_ H]. unfold wm_width. change (wm_data wm) with core.
+  split; [exact H|]. rewrite <- (width_v_bit_len V HV). exact H.
+Qed.
+
+End WMat.
